@@ -4,7 +4,6 @@ CONSTANTS
   InitUp = 2
   MaxFaults = 3
   FaultKinds = {"add", "remove", "unlist", "stop", "start", "restart", "droppooled", "dropctrl", "dropall"}
-  TimerStoppedOnClose = FALSE
-INVARIANTS SomeoneServes ExpectedExcludesUnlisted QuiescentConverged ExportInv
-PROPERTY Settles
+  TimerStoppedOnClose = TRUE
+INVARIANTS ExportHazard
 CHECK_DEADLOCK FALSE
